@@ -3,8 +3,8 @@ import os, random, json, subprocess, shutil
 import vlib, gen, skacli
 
 
-def faults(path, mode, n=5000, seed=1, threads=12):
-    p = subprocess.run([vlib.SKAV, "faults", path, mode, str(n), str(seed), str(threads)], stdout=subprocess.PIPE,
+def faults(path, mode, n=5000, seed=1, threads=12, last_cap=6000):
+    p = subprocess.run([vlib.SKAV, "faults", path, mode, str(n), str(seed), str(threads), str(last_cap)], stdout=subprocess.PIPE,
                        stderr=subprocess.PIPE, text=True, timeout=7000)
     if p.returncode != 0:
         raise vlib.ToolError("skav faults failed: " + p.stderr[-1000:])
@@ -31,6 +31,13 @@ def make_files(sb, rng, tier):
         e = sb.build(name, big, ["a", "b"], k, True)
         assert e.get("ok")
         files[name] = sb.path(name)
+    # a file of well over a dozen frames: several consecutive frames lie wholly inside one array of the serialised table
+    many = [[gen.rand_seq(rng, 62000)], []]
+    many[1] = [many[0][0][:30000] + gen.rand_seq(rng, 20000)]
+    sb.reset()
+    e = sb.build("many64", many, ["a", "b"], 21, True)
+    assert e.get("ok")
+    files["many64"] = sb.path("many64")
     # multi-frame files whose LAST frame is short, so that it holds only the tail of the serialised table (the end
     # of the last field(s)): damage confined to it leaves every earlier field intact
     for name, k in (("tail64", 21), ("tail128", 35)):
@@ -115,8 +122,11 @@ def run(run, tier, seed):
         for name, path in files.items():
             if name.startswith("small"):
                 r = faults(path, "list")
-            elif tier == "quick":
-                r = faults(path, "sample", n=3000, seed=seed)
+            elif tier == "quick" or name == "many64":
+                # (the many-frame file is sampled in both tiers: every header / checksum bit of every frame, the last
+                # frame, and sampled payload bits and prefixes)
+                r = faults(path, "sample", n=(1500 if name == "many64" else 3000) if tier == "quick" else 60000, seed=seed,
+                           last_cap=0 if (name == "many64" and tier == "quick") else 6000)
             else:
                 r = faults(path, "all", threads=16)
             results[name] = r
